@@ -585,6 +585,9 @@ def _js_type(t, openapi, refprefix):
                     # draft-07 and OpenAPI 3.0 ignore the siblings of $ref: the standard spelling wraps the reference
                     ft = {"allOf": [ft]}
                 ft["default"] = jv_to_py(f["def"])
+            if openapi and f["n"] in OPENAPI_ANNOTATIONS and "$ref" not in ft:
+                ft = dict(ft)
+                ft[OPENAPI_ANNOTATIONS[f["n"]]] = True       # annotation only: must not change required-ness / type
             props[f["n"]] = ft
             if f["req"]:
                 req.append(f["n"])
@@ -599,6 +602,10 @@ def _js_type(t, openapi, refprefix):
 
 JS_EXT = {}      # kind -> f(t, openapi, refprefix) -> JSON Schema / OpenAPI fragment
 CUE_EXT = {}     # kind -> f(cue_renderer, t) -> CUE expression
+
+
+# field names that make the OpenAPI rendering carry an annotation (catalogue schema `openapi-annotations`)
+OPENAPI_ANNOTATIONS = {"ro": "readOnly", "oro": "readOnly", "wo": "writeOnly", "dep": "deprecated"}
 
 
 def _js_nullable(t, openapi, refprefix):
@@ -1335,7 +1342,7 @@ NSIM = 240          # seeded draws from SemanticsSim per thorough run
 MAX_TWO = 900       # schemas whose two-place documents are enumerated
 
 
-def run_batch(ctx, nquick=76, go_flags=None, extra_languages=(), formats=FORMATS, select=None, must=(), deep=False, extra=None):
+def run_batch(ctx, nquick=80, go_flags=None, extra_languages=(), formats=FORMATS, select=None, must=(), deep=False, extra=None):
     """Catalogue -> selection -> cases -> generation -> build -> driver binary. Returns a Batch.
 
     select(cat) may return the list of ids to use (later properties pick schemas by tag, e.g. defaults).
